@@ -31,7 +31,9 @@ ASSUMPTIONS = [
 EA = [(".abstract", b"ABSTRACT"), (".keywords", b"KEYWORDS"), (".ask", b"ASK"), (".3d", b"3D")]
 line_st = st.one_of(
     st.text("abcdefghijklmnopqrstuvwxyzABCXYZ0123456789 .,:;!?+-*/=<>()[]'\"&%$#@", min_size=1, max_size=40).map(str.rstrip).filter(bool),
-    st.sampled_from(["+INFO: 1fake\tfake\tfake\t70", "+ADMIN:", "+", "++VIEWS", " leading blank", "caf\xc3\xa9 \xe2\x82\xac", "Ask: Name?", "."]),
+    st.sampled_from(["+INFO: 1fake\tfake\tfake\t70", "+ADMIN:", "+", "++VIEWS", " leading blank", "caf\xc3\xa9 \xe2\x82\xac", "Ask: Name?", ".",
+                     # text in a legacy 8-bit character set (printable there, not well-formed UTF-8): the bytes are the file's lines
+                     "caf\xe9 cr\xe8me", "\xa9 1999 M\xfcller", "20 \xb0C \xbd l", "\xc3 cut", "\xe2\x82"]),
 )
 
 
